@@ -421,6 +421,8 @@ def err_code(s):
         return 3
     if s == "No JSON found":
         return 4
+    if s == "Unknown folding error":
+        return 6
     return 5
 
 
@@ -447,6 +449,19 @@ def co_fn(kind):
 
 
 CO_KINDS = ["identity", "braces", "const", "raise"]
+
+# ChaperoneLoop configurations: confidence_decay (binary64 values; 0.1 is the default) and texts a generator
+# typically resubmits before it produces something foldable
+DECAYS = [0.1, 0.1, 0.1, 0.25, 0.4, 0.5, 0.3, 0.05, 0.0, 1.0, 1.5, 0.34, 0.125, 1e-3, 0.9, 2.0 ** -60, -0.25]
+HEAL_FAILS = ["I am not sure what you want", "not json", "{", "[1, 2", "", "```json\n{bad}\n```", "null", "3",
+              "Sorry, here it is: {...}", '{"unterminated": "str']
+OUTCOMES = {"valid_first_try": 0, "healed": 1, "degraded": 2}
+
+
+def dyadic(x):
+    """binary64 -> (m, e) with x == m * 2**e exactly."""
+    fr = Fraction(x)
+    return fr.numerator, -(fr.denominator.bit_length() - 1)
 
 
 class C11(Check):
@@ -571,6 +586,39 @@ class C11(Check):
                 "co": ({"0": co} if co else {}), "misfold": misfold,
                 "ops": [[fn, 0, 0, arg] for fn, arg in calls], "tags": list(tags)}
 
+    def _gen_heal(self, rng, schemas, texts, tags):
+        """One ChaperoneLoop.heal on the history's Chaperone: a generator that resubmits unfoldable text nf times and
+        then (usually) produces foldable text; nf is drawn around the point where attempt * decay crosses 1.
+        Appends the generator's texts to `texts`; returns the op."""
+        sidx = 0 if rng.random() < 0.85 else rng.randrange(len(schemas))
+        decay = rng.choice(DECAYS)
+        b = min(13, int(1 / decay)) if decay >= 0.05 else 3
+        nf = min(13, rng.choice([0, 0, 1, 1, 2, 3, b, b, b + 1, b + 2]))
+        mr = rng.choice([nf, nf, nf, nf + 1, nf - 1, 3, 0])
+
+        def add(t):
+            parts = to_parts(t)
+            if parts in texts:
+                return texts.index(parts)
+            texts.append(parts)
+            return len(texts) - 1
+        idxs, fail = [], rng.choice(HEAL_FAILS)
+        for _ in range(nf):
+            r = rng.random()
+            if r < 0.25:
+                fail = rng.choice(HEAL_FAILS)
+            elif r < 0.4:
+                fail = self._gen_raw(rng, schemas[sidx])[0]
+            idxs.append(add(fail))
+        if rng.random() < 0.8:
+            last = _json.dumps(gen_instance(rng, schemas[sidx]))
+        else:
+            last, ops2 = self._gen_raw(rng, schemas[sidx])
+            tags += ops2
+        idxs.append(add(last))
+        tags.append("heal")
+        return ["heal", idxs, sidx, mr, decay]
+
     def _gen_hist(self, rng):
         b = self._gen_one(rng)
         spec = b["schema"]
@@ -603,6 +651,12 @@ class C11(Check):
             ops.append(["enh" if rng.random() < 0.6 else "fold",
                         0 if rng.random() < 0.75 else rng.randrange(len(texts)),
                         0 if rng.random() < 0.85 else rng.randrange(len(schemas)), arg])
+        if rng.random() < 0.3:
+            # the healing loop shares the object (counters, co-chaperones) with the other calls of the history
+            for _ in range(rng.choice([1, 1, 2])):
+                ops.insert(rng.randint(0, len(ops)), self._gen_heal(rng, schemas, texts, tags))
+            if rng.random() < 0.5:
+                ops = [o for o in ops if o[0] == "heal" or rng.random() < 0.4]
         tags.append("history")
         return {"schemas": schemas, "texts": texts, "ctor": b["ctor"], "co": ({"0": b["co"]} if b["co"] else {}),
                 "misfold": b["misfold"], "ops": ops, "tags": tags}
@@ -635,7 +689,31 @@ class C11(Check):
             for B in probes:
                 for spec, raw in [(self.CANON_SPEC, r) for r in self.CANON_RAW] + [(self.NESTED_SPEC, self.NESTED_RAW)]:
                     out.append(self.history(spec, raw, None, [("enh", A), ("enh", B), ("fold", B)], tags=["canon-pair"]))
+        # the healing loop: confidence_decay x number of failed generations x max_retries (enough / one too few),
+        # ending in clean JSON (STRICT) or fenced JSON (EXTRACTION); the default decay up to 13 failures
+        grid = [(d, nf) for d in (0.1, 0.25, 0.4, 0.5, 1.0, 1.5, 0.0) for nf in range(0, 6)]
+        grid += [(0.1, nf) for nf in range(9, 14)] + [(0.25, 6), (0.05, 13)]
+        if self.tier != "quick":
+            grid += [(d, nf) for d in (0.3, 0.34, 0.125, 0.9, 1e-3, -0.25, 0.2, 0.7) for nf in range(0, 12)]
+        for decay, nf in grid:
+            for mr in (nf, nf - 1):
+                for good in (self.CANON_RAW[0], self.CANON_RAW[2]):
+                    if mr < nf and good != self.CANON_RAW[0]:
+                        continue
+                    out.append(self.heal_case(self.CANON_SPEC, ["not json at all"] * nf + [good], mr, decay, tags=["canon-heal"]))
         return out
+
+    @staticmethod
+    def heal_case(spec, raws, mr, decay, ctor=None, pre=(), post=(), tags=()):
+        """One heal whose generator returns `raws` in turn, optionally between fold calls on text 0."""
+        texts, idxs = [], []
+        for r in raws:
+            p_ = to_parts(r)
+            if p_ not in texts:
+                texts.append(p_)
+            idxs.append(texts.index(p_))
+        ops = [[fn, 0, 0, arg] for fn, arg in pre] + [["heal", idxs, 0, mr, decay]] + [[fn, 0, 0, arg] for fn, arg in post]
+        return {"schemas": [spec], "texts": texts, "ctor": ctor, "co": {}, "misfold": None, "ops": ops, "tags": list(tags)}
 
     def corpus_cases(self):
         base = []
@@ -653,6 +731,13 @@ class C11(Check):
                      "ctor": [0, 3], "co": {}, "misfold": None,
                      "ops": [["enh", 0, 1, None], ["enh", 0, 0, None], ["register", 0, "const"], ["fold", 0, 0, None],
                              ["reset"], ["enh", 1, 1, [1, 0]]], "tags": ["corpus"]})
+        # late heals: the retry count times the decay passes 1 (confidence must stay in [0,1])
+        good = self.CANON_RAW[0]
+        base.append(self.heal_case(self.CANON_SPEC, ["nothing"] * 3 + [good], 3, 0.4, tags=["corpus"]))
+        base.append(self.heal_case(self.CANON_SPEC, ["nothing"] * 12 + [good], 12, 0.1, pre=[("enh", None)], post=[("fold", None)],
+                                   tags=["corpus"]))
+        base.append(self.heal_case(self.CANON_SPEC, ["{", "{", self.CANON_RAW[3]], 2, 0.5, ctor=[3, 0], tags=["corpus"]))
+        base.append(self.heal_case(self.CANON_SPEC, ["nothing", "nothing"], 1, 0.1, tags=["corpus"]))
         return base + super().corpus_cases()
 
     # -- client: the healing loop built on fold_enhanced (a test, not a proof) ----
@@ -710,6 +795,7 @@ class C11(Check):
     # -- implementation ----------------------------------------------------
     def run_impl(self, case):
         from operon_ai.organelles import chaperone as CH
+        from operon_ai.healing import chaperone_loop as CL
         S = [CH.FoldingStrategy(v) for v in STRATS]
         code = {s: i for i, s in enumerate(S)}
         texts = [parts_text(t) for t in case["texts"]]
@@ -778,6 +864,24 @@ class C11(Check):
                 elif op[0] == "reset":
                     chap.reset_statistics()
                     st["stats"] = stats_obs(chap)
+                elif op[0] == "heal":
+                    rec.log = []
+                    st["gen_calls"] = gen_calls = []
+
+                    def generator(prompt, error_context=None, idxs=op[1], gen_calls=gen_calls):
+                        k = len(gen_calls)
+                        gen_calls.append(error_context)
+                        if rec.active:
+                            rec.log.append([-3, k])
+                        return texts[idxs[min(k, len(idxs) - 1)]]
+                    try:
+                        loop = CL.ChaperoneLoop(generator=generator, chaperone=chap, schema=schemas[op[2]],
+                                                max_retries=op[3], confidence_decay=op[4], silent=True)
+                        st["res"] = ("ret", loop.heal("p"))
+                    except Exception as e:
+                        st["res"] = ("raised", e)
+                    st["log"] = rec.log
+                    st["stats"] = stats_obs(chap)
                 else:
                     rec.log = []
                     fn = chap.fold if op[0] == "fold" else chap.fold_enhanced
@@ -799,9 +903,41 @@ class C11(Check):
         def struct_obs(x):
             return [0, 0] if x is None else [1, rec.iid(x)]
 
+        def enh_obs(r):
+            fr = Fraction(r.confidence)
+            su = code.get(r.strategy_used, -1) if r.strategy_used is not None else -1
+            rows = [[0, int(r.valid is True)] + struct_obs(r.structure) + [err_code(r.error_trace), su, fr.numerator, fr.denominator]]
+            co_obs = []
+            for c in r.coercions_applied:
+                if su == 1 and c.startswith("extracted_via_") and c[len("extracted_via_"):] in rec.pat_names:
+                    co_obs += [1, rec.pat_names.index(c[len("extracted_via_"):])]
+                elif su == 3 and c in rec.rep_names:
+                    co_obs += [2, rec.rep_names.index(c)]
+                else:
+                    co_obs += [3, rec.nid(c)]
+            return rows + [co_obs, att_obs(r.attempts)]
+
         obs = []
         for st in steps:
             op = st["op"]
+            if op[0] == "heal":
+                kind, r = st["res"]
+                obs.append([-2, 4])
+                if kind == "raised":
+                    obs.append([1, rec.exn_code(r)])
+                else:
+                    fr = Fraction(r.final_confidence)
+                    obs.append([0, OUTCOMES.get(r.outcome.value, 9), int(r.ubiquitin_tagged is True), fr.numerator, fr.denominator])
+                    obs += [[-1]] if r.folded is None else enh_obs(r.folded)
+                    row = []
+                    for a in r.attempts:
+                        fa = Fraction(a.confidence)
+                        row += [a.attempt_number, rec.tid(a.raw_output), err_code(a.error_trace), int(a.success is True),
+                                fa.numerator, fa.denominator]
+                    obs.append(row)
+                obs.append(st["stats"])
+                obs += st["log"]
+                continue
             if op[0] == "register":
                 obs.append([-2, 2])
                 continue
@@ -820,26 +956,13 @@ class C11(Check):
                 if kind == "raised":
                     obs.append([1, rec.exn_code(r)])
                 else:
-                    fr = Fraction(r.confidence)
-                    su = code.get(r.strategy_used, -1) if r.strategy_used is not None else -1
-                    obs.append([0, int(r.valid is True)] + struct_obs(r.structure)
-                               + [err_code(r.error_trace), su, fr.numerator, fr.denominator])
-                    co_obs = []
-                    for c in r.coercions_applied:
-                        if su == 1 and c.startswith("extracted_via_") and c[len("extracted_via_"):] in rec.pat_names:
-                            co_obs += [1, rec.pat_names.index(c[len("extracted_via_"):])]
-                        elif su == 3 and c in rec.rep_names:
-                            co_obs += [2, rec.rep_names.index(c)]
-                        else:
-                            co_obs += [3, rec.nid(c)]
-                    obs.append(co_obs)
-                    obs.append(att_obs(r.attempts))
+                    obs += enh_obs(r)
             obs.append(st["stats"])
             obs += st["log"]
         tabs = rec.tables()
         trace = {"rec": rec, "tabs": tabs, "steps": steps, "schemas": schemas, "texts": texts,
                  "text_ids": [rec.texts[t] for t in texts],      # ids are by content: equal texts share one id
-                 "npat": len(rec.pats), "nrep": len(rec.reps), "CH": CH, "S": S}
+                 "npat": len(rec.pats), "nrep": len(rec.reps), "CH": CH, "CL": CL, "S": S}
         if rec.inconsistent:
             trace["harness_error"] = "oracle answered one key in two ways: %r" % (rec.inconsistent,)
         return obs, trace
@@ -868,6 +991,9 @@ class C11(Check):
                 ops.append([2, op[1], CO_KINDS.index(op[2])])
             elif op[0] == "reset":
                 ops.append([3])
+            elif op[0] == "heal":
+                m, e = dyadic(op[4])
+                ops.append([4, op[2], op[3], m, e] + [trace["text_ids"][i] for i in op[1]])
             else:
                 ops.append([0 if op[0] == "fold" else 1, trace["text_ids"][op[1]], op[2]] + list(op[3] or []))
         reg0 = [[int(k), CO_KINDS.index(v)] for k, v in sorted(case["co"].items())]
@@ -894,10 +1020,16 @@ class C11(Check):
                 if st["stats"] != [0] * 10:
                     return Violation("C11/statistics", f"call {n}: counters after reset_statistics are {st['stats']}")
                 continue
-            v = self._monitor_call(case, trace, n, st)
-            if v is not None:
-                return v
-            total += 1
+            if op[0] == "heal":
+                v = self._monitor_heal(case, trace, n, st)
+                if v is not None:
+                    return v
+                total += len(st["gen_calls"])          # one fold per generated text
+            else:
+                v = self._monitor_call(case, trace, n, st)
+                if v is not None:
+                    return v
+                total += 1
             kind, r = st["res"]
             good += int(kind == "ret" and r.valid is True)
             if st["stats"][0] != total or st["stats"][1] != good:
@@ -1004,6 +1136,121 @@ class C11(Check):
             return Violation("C11/history-dependent", f"{name}: in this history the call gives {view(r)!r:.200}, on a fresh Chaperone {view(same)!r:.200}")
         return None
 
+    def _monitor_heal(self, case, trace, n, st):
+        """The property for a fold REPORTED THROUGH the healing loop (ChaperoneLoop.heal drives fold_enhanced on this
+        Chaperone and hands back the EnhancedFoldedProtein of the first valid attempt, or nothing)."""
+        rec, CH, CL, S = trace["rec"], trace["CH"], trace["CL"], trace["S"]
+        op = st["op"]
+        idxs, sidx, mr, decay = op[1], op[2], op[3], op[4]
+        schema = trace["schemas"][sidx]
+        validate = rec.orig_validate[sidx]
+        strategies = self.effective(case, None)
+        co_kind = st["reg"].get(sidx)
+        callbacks_raise = co_kind == "raise" or case["misfold"] == "raise"
+        name = f"call {n} (ChaperoneLoop(max_retries={mr}, confidence_decay={decay!r}).heal, strategies={[STRATS[i] for i in strategies]})"
+        kind, h = st["res"]
+        if kind == "raised":
+            if isinstance(h, CoRaise) and callbacks_raise:
+                return None
+            return Violation("C11/raises", f"{name} raised {type(h).__name__}: {str(h)[:200]}")
+        raws = [trace["texts"][idxs[min(k, len(idxs) - 1)]] for k in range(len(st["gen_calls"]))]
+        # the oracle calls of each fold_enhanced the loop made
+        segs, cur = [], None
+        for row in st["log"]:
+            if row[0] == -3:
+                cur = []
+                segs.append(cur)
+            elif cur is not None:
+                cur.append(row)
+        f = h.folded
+        if h.valid:
+            if f is None or f.valid is not True:
+                return Violation("C11/valid-not-instance", f"{name}: outcome {h.outcome.value} without a valid folded protein")
+            if not isinstance(f.structure, schema) or h.structure is not f.structure:
+                return Violation("C11/valid-not-instance", f"{name}: healed, but the structure is {type(f.structure).__name__}, not the schema")
+            try:
+                validate(f.structure.model_dump())
+            except Exception as e:
+                return Violation("C11/valid-not-revalidates", f"{name}: healed structure does not re-validate: {str(e)[:200]}")
+            if not raws or not segs:
+                return Violation("C11/valid-no-provenance", f"{name}: a structure is reported although no text was generated")
+            why = self._provenance(rec, segs[-1], rec.iid(f.structure), rec.texts[raws[-1]])
+            if why:
+                return Violation("C11/valid-no-provenance", f"{name}: attempt {len(raws) - 1}: {why}")
+            used = f.strategy_used.value if f.strategy_used is not None else None
+            for what, c in (("folded.confidence", f.confidence), ("final_confidence", h.final_confidence)):
+                if not (isinstance(c, (int, float)) and 0.0 <= c <= 1.0):
+                    return Violation("C11/confidence-range", f"{name}: valid fold {f.structure!r:.80} after {len(raws)} generation(s) "
+                                                             f"reported with {what}={c!r}, outside [0,1]")
+                if c == 1.0 and used != "strict":
+                    return Violation("C11/confidence-one-iff-strict", f"{name}: {what}={c!r} with strategy_used={used}")
+            if used is None or STRATS.index(used) not in strategies:
+                return Violation("C11/strategy-used", f"{name}: strategy_used={used} is not one of the requested strategies")
+        else:
+            if f is not None or h.structure is not None:
+                return Violation("C11/invalid-has-structure", f"{name}: outcome {h.outcome.value} but a folded protein / structure is returned")
+            for a in h.attempts:
+                if a.success or not (isinstance(a.error_trace, str) and a.error_trace):
+                    return Violation("C11/invalid-no-trace", f"{name}: degraded, attempt {a.attempt_number} has no error trace")
+            if isinstance(mr, int) and mr >= 0 and not h.attempts:
+                return Violation("C11/invalid-no-trace", f"{name}: degraded without any recorded attempt")
+        # every generated text: clean schema-valid JSON with STRICT first is accepted verbatim, there and then
+        for k, raw in enumerate(raws):
+            if strategies[0] != 0 or co_kind is not None:
+                break
+            try:
+                want = validate(_json.loads(raw))
+            except Exception:
+                want = None
+            if want is None:
+                continue
+            okay = (h.valid and k == len(raws) - 1 and repr(f.structure) == repr(want) and f.strategy_used is not None
+                    and f.strategy_used.value == "strict" and f.coercions_applied == [])
+            if okay and k == 0:
+                okay = f.confidence == 1.0 and h.outcome.value == "valid_first_try"
+            if not okay:
+                return Violation("C11/strict-not-verbatim", f"{name}: generation {k} is schema-valid JSON ({want!r:.80}) but the loop reports "
+                                                            f"{h.outcome.value}, {h.structure!r:.80}, strategy_used="
+                                                            f"{getattr(f, 'strategy_used', None)}, confidence={getattr(f, 'confidence', None)}")
+        if co_kind == "raise":
+            return None
+        # plain fold of every generated text on a FRESH Chaperone agrees with what the loop recorded for it
+        ctor = None if case["ctor"] is None else [S[i] for i in case["ctor"]]
+
+        def fresh_chap():
+            return CH.Chaperone(strategies=ctor, co_chaperones={schema: co_fn(co_kind)} if co_kind else None, silent=True)
+        for k, raw in enumerate(raws):
+            try:
+                p = fresh_chap().fold(raw, schema)
+            except Exception as e:
+                return Violation("C11/raises", f"{name}: fold of generation {k} raised {type(e).__name__} on a fresh Chaperone: {str(e)[:150]}")
+            got_valid = bool(h.valid and k == len(raws) - 1)
+            got = h.structure if got_valid else None
+            if p.valid != got_valid or repr(p.structure) != repr(got) or type(p.structure) is not type(got):
+                return Violation("C11/plain-enhanced-disagree", f"{name}: generation {k}: fold gives valid={p.valid} {p.structure!r:.100}; "
+                                                                f"the loop's fold_enhanced gives valid={got_valid} {got!r:.100}")
+        # the same loop on a FRESH Chaperone: same answer (nothing carried over from earlier calls)
+        calls = []
+
+        def generator(prompt, error_context=None):
+            calls.append(error_context)
+            return trace["texts"][idxs[min(len(calls) - 1, len(idxs) - 1)]]
+        try:
+            same = CL.ChaperoneLoop(generator=generator, chaperone=fresh_chap(), schema=schema, max_retries=mr,
+                                    confidence_decay=decay, silent=True).heal("p")
+        except Exception as e:
+            return Violation("C11/raises", f"{name}: raised {type(e).__name__} on a fresh Chaperone: {str(e)[:150]}")
+
+        def view(x):
+            v = [x.outcome.value, repr(x.structure), x.final_confidence, [(a.raw_output, a.success, a.confidence) for a in x.attempts]]
+            if x.folded is not None:
+                g = x.folded
+                v += [g.valid, g.confidence, g.strategy_used, list(g.coercions_applied), [(a.strategy, a.success) for a in g.attempts]]
+            return v
+        if view(same) != view(h):
+            return Violation("C11/history-dependent", f"{name}: in this history the loop gives {view(h)!r:.200}, on a fresh Chaperone {view(same)!r:.200}")
+        return None
+
     @staticmethod
     def _provenance(rec, log, sid, raw_id):
         """The structure was returned by model_validate, during this fold, on a value obtained by json.loads
@@ -1042,14 +1289,15 @@ class C11(Check):
 
     def nontrivial(self, case, obs, trace):
         return (bool([t for t in case["tags"] if t != "pair"]) or bool(case["ctor"]) or bool(case["co"]) or bool(case["misfold"])
-                or len(self._calls(case)) > 2 or any(op[3] for op in self._calls(case)))
+                or len(self._calls(case)) > 2 or any(op[3] for op in self._calls(case))
+                or any(op[0] == "heal" for op in case["ops"]))
 
     def classify(self, case, obs, trace):
         ks = ["op=" + o for o in case["tags"]] or ["op=clean"]
         calls = self._calls(case)
         ks.append("calls=%d" % len(calls))
         if len(case["ops"]) > len(calls):
-            ks += ["op:" + op[0] for op in case["ops"] if op[0] in ("register", "reset")]
+            ks += ["op:" + op[0] for op in case["ops"] if op[0] in ("register", "reset", "heal")]
         if len({(op[1], op[2]) for op in calls}) < len(calls):
             ks.append("repeated-text+schema")
         if len({(op[1], op[2], tuple(self.effective(case, op[3]))) for op in calls}) > len({(op[1], op[2]) for op in calls}):
@@ -1062,8 +1310,21 @@ class C11(Check):
             for st in trace["steps"]:
                 if "res" not in st:
                     continue
-                ks.append("strategies=%d" % len(self.effective(case, st["op"][3])))
                 kind, r = st["res"]
+                if st["op"][0] == "heal":
+                    decay, k = st["op"][4], len(st["gen_calls"])
+                    ks.append("heal-decay=%r" % decay)
+                    if kind == "raised":
+                        ks.append("heal=raised")
+                        continue
+                    ks.append("heal=" + r.outcome.value)
+                    ks.append("heal-generations=%s" % (k if k < 5 else "5+"))
+                    if r.valid:
+                        prod = (k - 1) * decay
+                        ks.append("heal-valid:retries*decay" + ("<1" if prod < 1 else "=1" if prod == 1 else ">1"))
+                        ks.append("heal-valid=" + (r.folded.strategy_used.value if r.folded.strategy_used else "?"))
+                    continue
+                ks.append("strategies=%d" % len(self.effective(case, st["op"][3])))
                 if kind == "raised":
                     ks.append("raised")
                 elif r.valid:
@@ -1095,6 +1356,45 @@ class C11(Check):
                             break
                     except Exception:
                         pass
+        for i, op in enumerate(case["ops"]):
+            if op[0] != "heal":
+                continue
+            # fewer retries allowed / a shorter run of generations, as long as the same thing still fails
+            changed = True
+            while changed:
+                changed = False
+                cur = case["ops"][i]
+                cands = [[*cur[:3], len(cur[1]) - 1, cur[4]]] if cur[3] != len(cur[1]) - 1 else []
+                cands += [["heal", cur[1][:j] + cur[1][j + 1:], cur[2], cur[3] - 1, cur[4]] for j in range(len(cur[1]) - 1)]
+                for cand in cands:
+                    ops2 = [list(o) for o in case["ops"]]
+                    ops2[i] = cand
+                    try:
+                        if pred({**case, "ops": ops2}):
+                            case["ops"] = ops2
+                            changed = True
+                            break
+                    except Exception:
+                        pass
+        # drop texts no remaining call mentions
+        used = sorted({j for op in case["ops"] if op[0] == "heal" for j in op[1]}
+                      | {op[1] for op in case["ops"] if op[0] in ("fold", "enh")})
+        if used and len(used) < len(case["texts"]):
+            remap = {j: n for n, j in enumerate(used)}
+            ops2 = []
+            for op in case["ops"]:
+                if op[0] == "heal":
+                    ops2.append(["heal", [remap[j] for j in op[1]], *op[2:]])
+                elif op[0] in ("fold", "enh"):
+                    ops2.append([op[0], remap[op[1]], *op[2:]])
+                else:
+                    ops2.append(list(op))
+            cand = {**case, "texts": [case["texts"][j] for j in used], "ops": ops2}
+            try:
+                if pred(cand):
+                    case = cand
+            except Exception:
+                pass
         for key in ("misfold",):
             if case[key] and pred({**case, key: None}):
                 case[key] = None
